@@ -405,6 +405,24 @@ fn exhaustive_read(which: usize, rep: &mut Report) {
             }
         }
     }
+    // junk lines of EVERY length from 3 to 4400 bytes (terminator included), and of every multiple of the longest frame's
+    // line (523 bytes) up to forty times that, one byte less and one more: whatever reservation a reader works with, some
+    // line fills it exactly
+    if which == 0 {
+        let good = refs::enc_crlf(0x0003, 0x04, &[0x07]);
+        let mut totals: Vec<usize> = (3..=4400).collect();
+        for k in 9..=40usize {
+            totals.extend([523 * k - 1, 523 * k, 523 * k + 1]);
+        }
+        for total in totals {
+            let mut tape = vec![b':'];
+            tape.extend(std::iter::repeat(b'5').take(total - 3));
+            tape.extend_from_slice(b"\r\n");
+            tape.extend_from_slice(&good);
+            tape.extend_from_slice(&good);
+            run_read_case(&ReadCase { tape, boundaries: vec![], faults: vec![], reads: 3, label: "junk_line_of_every_length" }, rep);
+        }
+    }
     // junk lines whose length is AROUND that of the longest frame (515 .. 530 bytes, terminator included — the longest
     // frame's line has 523), then two good frames: the failing read takes that line and nothing of the next one
     if which == 0 {
@@ -1250,6 +1268,7 @@ pub fn run(ctx: &Ctx) -> Outcome {
         floor("exhaustive write set", report.get("exhaustive_write_sets_done") == 1, report.get("exhaustive_write_sets_done")),
         floor("the same frame on consecutive lines; wrong terminators made of CR / blank / tab", report.get("lines/same_frame_as_previous_line") > 1000 && report.get("lines/doubled_cr") > 100 && report.get("lines/blank_near_terminator") > 100, report.get("lines/same_frame_as_previous_line")),
         floor("good frames after exactly k undecodable lines / k failing reads (k = 1..257)", report.get("read_cases/k_undecodable_lines_then_good_ones") == 40 && report.get("read_cases/k_failing_reads_then_good_ones") == 8, report.get("read_cases/k_undecodable_lines_then_good_ones")),
+        floor("junk lines of every length 3 ..= 4400 and around every multiple of 523 up to 40 x, each followed by two good frames", report.get("read_cases/junk_line_of_every_length") == 4398 + 96, report.get("read_cases/junk_line_of_every_length")),
         floor("lines of 524 .. 70 000 bytes without a line feed, then good frames; noise in front of a frame on the same line", report.get("read_cases/overlong_line_then_good_frames") == 36 && report.get("lines/leading_noise") > 100, report.get("lines/leading_noise")),
         floor("junk lines of 515 .. 530 bytes (around the longest frame's 523), then good frames", report.get("read_cases/junk_line_about_as_long_as_the_longest_frame") == 64, report.get("read_cases/junk_line_about_as_long_as_the_longest_frame")),
         floor("lines whose length field alone is wrong (off by 1 .. 255) with a checksum that is right for the bytes as sent", report.get("lines/wrong_length_field_right_checksum") > 1000, report.get("lines/wrong_length_field_right_checksum")),
